@@ -133,7 +133,7 @@ def run_malformed(chk, files, n):
             data = mutate(rng, data)
         b = rng.random() < 0.7
         cases.append({"hex": data.hex(), "branch": b})
-        exprs.append(vlib.app("run_lcov", b, list(data)) if not lcovgen.huge_branch_number(data, 1 << 12) else "0")
+        exprs.append(vlib.app("run_lcov", b, list(data)) if not lcovgen.model_unfriendly(data) else "0")
     impl = vlib.run_impl("lcov", cases, chk.pid, parallel=4)
     model = vlib.run_model(chk.pid, "Run.Show", exprs)
     classes = {}
@@ -144,6 +144,9 @@ def run_malformed(chk, files, n):
         data = bytes.fromhex(case["hex"])
         a = lcovgen.results_from_impl(ri)
         classes[a[0]] = classes.get(a[0], 0) + 1
+        if a[0] == "huge" and "lcov-branch-number-alloc" in known:
+            chk.known(known["lcov-branch-number-alloc"])
+            continue
         if a[0] == "crash" and "lcov-branch-number-alloc" in known and \
            (lcovgen.huge_branch_number(data) or ("memory allocation of" in str(ri) and "parser::add_branch" in str(ri))):
             chk.known(known["lcov-branch-number-alloc"])
@@ -152,7 +155,7 @@ def run_malformed(chk, files, n):
             chk.violation({"kind": "oracle", "engine": "lcov", "case": case, "text": data.decode("latin-1"), "impl": a,
                            "clause": "malformed lcov input must give a result or an error, never a panic"}, tag="mal")
             continue
-        if lcovgen.huge_branch_number(data, 1 << 12):
+        if lcovgen.model_unfriendly(data):
             continue      # the Gallina model would build the same giant vector
         # names are modelled as bytes; from_utf8_lossy is outside the model, so results are compared
         # only when the input is valid UTF-8 (outcome class is compared always)
